@@ -31,15 +31,21 @@ Definition set_ext (q : Pos) (x : nat) : Pos := mkPos (p_base q) (p_jit q) x.
    ext_drift, cond_err: the copy commit); false = views of the caller's arrays. *)
 (* f_exactpos: Field._pos_equal compares exactly (np.array_equal); false = np.allclose (sees only the base).
    f_exttoken: the reuse test of CondSRF also compares the external drift given with the call. *)
+(* f_perobj: the reference dict belongs to the CondSRF OBJECT (instance attribute); false = one dict shared by all
+   CondSRF objects (class attribute).
+   Several CondSRF objects may share one Krige object: object ob owns the name keys 4*ob .. 4*ob+3 (key = 4*ob + name
+   set); everything called "name set ns" below is such a key, and ns / 4 is the CondSRF object that is called. *)
 Record Fix := mkFix { f_inval : bool; f_copy : bool; f_token : bool; f_pername : bool; f_condcopy : bool;
-                      f_exactpos : bool; f_exttoken : bool }.
-Definition repaired : Fix := mkFix true true true true true true true.
-Definition first_repair : Fix := mkFix true false false true true false false.
-Definition pinned : Fix := mkFix false false false true true false false.
-Definition shared_ref : Fix := mkFix true true true false true true true.     (* one reference slot for all store names *)
-Definition aliased_cond : Fix := mkFix true true true true false true true.  (* conditioning arrays are views *)
-Definition allclose_pos : Fix := mkFix true true true true true false true.  (* _pos_equal with np.allclose *)
-Definition no_ext_token : Fix := mkFix true true true true true true false.  (* reuse test ignores the call's ext_drift *)
+                      f_exactpos : bool; f_exttoken : bool; f_perobj : bool }.
+Definition repaired : Fix := mkFix true true true true true true true true.
+Definition first_repair : Fix := mkFix true false false true true false false true.
+Definition pinned : Fix := mkFix false false false true true false false true.
+Definition shared_ref : Fix := mkFix true true true false true true true true.     (* one reference slot for all store names *)
+Definition aliased_cond : Fix := mkFix true true true true false true true true.  (* conditioning arrays are views *)
+Definition allclose_pos : Fix := mkFix true true true true true false true true.  (* _pos_equal with np.allclose *)
+Definition no_ext_token : Fix := mkFix true true true true true true false true.  (* reuse test ignores the call's ext_drift *)
+Definition class_level_ref : Fix := mkFix true true true true true true true false. (* reference dict shared by all objects *)
+Definition obj_of (ns : nat) : nat := ns / 4.
 (* Field._pos_equal *)
 Definition pos_close (fx : Fix) (a b : Pos) : bool :=
   (p_base a =? p_base b) && (if f_exactpos fx then p_jit a =? p_jit b else true).
@@ -64,7 +70,7 @@ Record St := mkSt {
   st_matmodel : nat;                    (* model content of the current Krige._krige_mat *)
   st_mtn : nat;
   st_next : nat;                        (* next unused version number / object identity *)
-  st_seed : nat;                        (* seed of the generator *)
+  st_seed : nat -> nat;                 (* per CondSRF object: seed of its generator *)
   st_kvid : nat;                        (* identity of the array object stored as Krige.krige_var *)
   st_ref : nat -> option (nat * bool * Pos)   (* CondSRF._krige_ref[name]: (krige_var object, mesh type, pos) *)
 }.
@@ -77,13 +83,13 @@ Inductive Op :=
                                      (* csrf(pos, seed, mesh_type, store=[name, raw name, raw kriging name or False],
                                         ext_drift=<values xd>) with the names of name set ns; srk = false: the raw
                                         kriging field is not stored; the ext component of p is ignored, xd counts *)
-| SetPos (p : Pos) (m : bool)                        (* csrf.set_pos(pos, mesh_type) *)
+| SetPos (ob : nat) (p : Pos) (m : bool)             (* csrf_ob.set_pos(pos, mesh_type) *)
 | SetCond (k : CondKind)                             (* csrf.krige.set_condition(...) *)
 | ModelInplace                                       (* csrf.model.len_scale = ... (no refresh) *)
 | SetModel | SetMean | SetTrend | SetNorm            (* csrf.model = <new object>, csrf.mean = ..., ... *)
 | ReassignModel                                      (* csrf.model = csrf.model (the same, possibly edited, object) *)
 | MutateCond              (* the caller edits IN PLACE an array passed as cond_pos / cond_val / ext_drift *)
-| SetGen (sd : nat)                                  (* csrf.set_generator("RandMeth", seed=sd) *)
+| SetGen (ob : nat) (sd : nat)                       (* csrf_ob.set_generator("RandMeth", seed=sd) *)
 | MutatePos (q : Pos)       (* the caller edits IN PLACE the array last passed as pos; it now holds q *)
 | KrigeCall (p : option (Pos * bool))                (* csrf.krige(pos, mesh_type) called directly *)
 | AssignPos (q : Pos).                               (* csrf.pos = q (property setter, no set_pos) *)
@@ -106,7 +112,8 @@ Definition desc0 : KDesc := mkKDesc pos0 false 0 0 0 0.
 
 (* the freshly built object: Krige(model, cond, mean, normalizer, trend) from the current settings,
    CondSRF(krige, seed=current seed); nothing stored, no position *)
-Definition init (sd : nat) : St := mkSt None false [] [] (fun _ => desc0) desc0 0 0 0 0 1 sd 0 (fun _ => None).
+(* object ob is created with seed sd + ob *)
+Definition init (sd : nat) : St := mkSt None false [] [] (fun _ => desc0) desc0 0 0 0 0 1 (fun ob => sd + ob) 0 (fun _ => None).
 Definition fresh_of (s : St) : St :=
   mkSt None false [] [] (fun _ => desc0) desc0 (st_cond s) (st_model s) (st_model s) (st_mtn s) (st_next s) (st_seed s)
        0 (fun _ => None).
@@ -116,9 +123,11 @@ Definition upd {A} (f : nat -> A) (n : nat) (v : A) : nat -> A := fun k => if k 
    CondSRF and of Krige are deleted when the mesh type changed or not _pos_equal(old, new) *)
 Definition pos_changed (fx : Fix) (s : St) (p : Pos) (m : bool) : bool :=
   negb (Bool.eqb (st_mesh s) m) || negb (match st_pos s with Some q => pos_close fx q p | None => false end).
-Definition do_set_pos (fx : Fix) (s : St) (p : Pos) (m : bool) : St * bool :=
+(* delete_fields of CondSRF object ob: its own names only *)
+Definition drop_obj (ob : nat) (l : list nat) : list nat := filter (fun c => negb (c / 12 =? ob)) l.
+Definition do_set_pos (fx : Fix) (ob : nat) (s : St) (p : Pos) (m : bool) : St * bool :=
   let del := pos_changed fx s p m in
-  (mkSt (Some p) m (if del then [] else st_cnames s) (if del then [] else st_knames s)
+  (mkSt (Some p) m (if del then drop_obj ob (st_cnames s) else st_cnames s) (if del then [] else st_knames s)
         (st_rk s) (st_kv s) (st_cond s) (st_model s) (st_matmodel s) (st_mtn s) (st_next s) (st_seed s)
         (st_kvid s) (st_ref s), del).
 (* Field.set_pos on the Krige object itself (direct krige call): only Krige's fields are deleted *)
@@ -127,15 +136,16 @@ Definition krige_set_pos (fx : Fix) (s : St) (p : Pos) (m : bool) : St :=
        (st_rk s) (st_kv s) (st_cond s) (st_model s) (st_matmodel s) (st_mtn s) (st_next s) (st_seed s)
        (st_kvid s) (st_ref s).
 
-Definition with_seed (s : St) (sd : nat) : St :=
+Definition with_seed (s : St) (ob sd : nat) : St :=
   mkSt (st_pos s) (st_mesh s) (st_cnames s) (st_knames s) (st_rk s) (st_kv s) (st_cond s) (st_model s)
-       (st_matmodel s) (st_mtn s) (st_next s) sd (st_kvid s) (st_ref s).
+       (st_matmodel s) (st_mtn s) (st_next s) (upd (st_seed s) ob sd) (st_kvid s) (st_ref s).
 Definition with_pos (s : St) (q : Pos) : St :=
   mkSt (Some q) (st_mesh s) (st_cnames s) (st_knames s) (st_rk s) (st_kv s) (st_cond s) (st_model s)
        (st_matmodel s) (st_mtn s) (st_next s) (st_seed s) (st_kvid s) (st_ref s).
 
 (* bf42345: the stored krige_var is the object remembered with raw_krige, same mesh type, _pos_equal positions *)
-Definition slot (fx : Fix) (ns : nat) : nat := if f_pername fx then ns else 0.
+Definition slot (fx : Fix) (ns : nat) : nat :=
+  if f_pername fx then (if f_perobj fx then ns else ns mod 4) else (if f_perobj fx then 4 * obj_of ns else 0).
 Definition token_ok (fx : Fix) (s : St) (ns : nat) : bool :=
   match st_ref s (slot fx ns) with
   | Some (id, m, rp) => (st_kvid s =? id) && Bool.eqb (st_mesh s) m && pos_close fx (cur_pos s) rp
@@ -146,7 +156,7 @@ Definition token_ok (fx : Fix) (s : St) (ns : nat) : bool :=
 (* the part of CondSRF.__call__ after pre_pos (krige_store default, store = [True, True, srk]) *)
 (* Field.get_store_config: store=[n0, n1, False] gives the raw kriging field its DEFAULT name (not stored), so the
    reuse decision of such a call looks at the default-named raw kriging field *)
-Definition rkset (srk : bool) (ns : nat) : nat := if srk then ns else 0.
+Definition rkset (srk : bool) (ns : nat) : nat := if srk then ns else 4 * obj_of ns.
 Definition finish_call (fx : Fix) (s2 : St) (del srk : bool) (ns : nat) : St * Res :=
   let rn := rkset srk ns in
   let reuse := negb del && has (3 * rn + 2) (st_cnames s2) && has 1 (st_knames s2)
@@ -166,21 +176,21 @@ Definition finish_call (fx : Fix) (s2 : St) (del srk : bool) (ns : nat) : St * R
         (if reuse then st_kvid s2 else st_next s2)
         (if reuse || negb srk then st_ref s2
          else upd (st_ref s2) (slot fx ns) (Some (st_next s2, st_mesh s2, cur_pos s2))),
-   RField (mkOut reuse k v (st_model s2) (st_seed s2) (st_mtn s2))).
+   RField (mkOut reuse k v (st_model s2) (st_seed s2 (obj_of ns)) (st_mtn s2))).
 
 (* the external drift given with the call belongs to the target of this call *)
 Definition with_ext (s : St) (xd : nat) : St :=
   match st_pos s with Some q => with_pos s (set_ext q xd) | None => s end.
 Definition do_call (fx : Fix) (s : St) (p : option (Pos * bool)) (sd : option nat) (srk : bool) (ns xd : nat) : St * Res :=
   (* self.generator.update(self.model, seed) — happens before pre_pos may raise *)
-  let s1 := match sd with Some x => with_seed s x | None => s end in
+  let s1 := match sd with Some x => with_seed s (obj_of ns) x | None => s end in
   (* self.pre_pos(pos, mesh_type, info=True) *)
   match p with
   | None => match st_pos s1 with
             | None => (s1, RErr)                         (* ValueError: no position tuple present *)
             | Some _ => finish_call fx (with_ext s1 xd) false srk ns
             end
-  | Some (q, m) => let '(s2, del) := do_set_pos fx s1 q m in finish_call fx (with_ext s2 xd) del srk ns
+  | Some (q, m) => let '(s2, del) := do_set_pos fx (obj_of ns) s1 q m in finish_call fx (with_ext s2 xd) del srk ns
   end.
 
 (* Krige.__call__ called directly (default store): field, then krige_var are stored in Krige *)
@@ -233,12 +243,12 @@ Definition step (fx : Fix) (s : St) (op : Op) : St * Res :=
   (* Krige.model setter with the object it already holds: 2a36b2f = set_condition(); before = nothing *)
   | ReassignModel => ((if f_inval fx then do_set_cond fx s Refresh else s), RNone)
   | MutateCond => (do_mutate_cond fx s, RNone)
-  | SetPos p m => (fst (do_set_pos fx s p m), RNone)
+  | SetPos ob p m => (fst (do_set_pos fx ob s p m), RNone)
   | SetCond k => (do_set_cond fx s k, RNone)
   | ModelInplace => (do_model_inplace s, RNone)
   | SetModel => (do_set_model fx s, RNone)
   | SetMean | SetTrend | SetNorm => (do_set_mtn fx s, RNone)
-  | SetGen sd => (with_seed s sd, RNone)
+  | SetGen ob sd => (with_seed s ob sd, RNone)
   | MutatePos q => (do_mutate_pos fx s q, RNone)
   | KrigeCall p => do_krige_call fx s p
   | AssignPos q => (with_pos s q, RNone)
@@ -250,8 +260,8 @@ Definition run (fx : Fix) (ops : list Op) (s : St) : St := fold_left (fun s op =
 Definition refreshed (s : St) : Prop := st_matmodel s = st_model s.
 
 (* what a freshly built object returns for the current settings, position and seed *)
-Definition fresh_result (s : St) : Res :=
-  snd (step repaired (fresh_of s) (Call (Some (cur_pos s, st_mesh s)) None true 0 (p_ext (cur_pos s)))).
+Definition fresh_result (s : St) (ob : nat) : Res :=
+  snd (step repaired (fresh_of s) (Call (Some (cur_pos s, st_mesh s)) None true (4 * ob) (p_ext (cur_pos s)))).
 
 (* two results describe the same field (the branch flag is not part of the field) *)
 Definition same_field (a b : Res) : Prop :=
@@ -264,7 +274,8 @@ Definition same_field (a b : Res) : Prop :=
 (* ------------------------------------------------------------------ executable trace (correspondence) *)
 Definition zb (b : bool) : Z := if b then 1%Z else 0%Z.
 Definition zn (n : nat) : Z := Z.of_nat n.
-Definition enc_names (l : list nat) : Z := fold_left (fun acc n => (acc * 16 + zn n + 1)%Z) l 0%Z.
+(* stored names in order, code + 1 each, padded with 0 to a fixed length *)
+Definition enc_names (k : nat) (l : list nat) : list Z := firstn k (map (fun n => (zn n + 1)%Z) l ++ repeat 0%Z k).
 Definition enc_desc (d : KDesc) : list Z :=
   [zn (p_base (k_pos d)); zn (p_jit (k_pos d)); zn (p_ext (k_pos d)); zb (k_mesh d); zn (k_cond d); zn (k_matmodel d);
    zn (k_model d); zn (k_mtn d)].
@@ -278,20 +289,21 @@ Definition enc_res (r : Res) : list Z :=
   end.
 (* one row per operation: result kind + output, then the state after the operation *)
 Definition enc_row (s : St) (r : Res) : list Z :=
-  enc_res r ++ [enc_names (st_cnames s); enc_names (st_knames s);
-                match st_pos s with Some _ => 1%Z | None => 0%Z end] ++ enc_desc (cur_desc s) ++ [zn (st_seed s)].
+  enc_res r ++ enc_names 27 (st_cnames s) ++ enc_names 2 (st_knames s) ++
+               [match st_pos s with Some _ => 1%Z | None => 0%Z end] ++ enc_desc (cur_desc s) ++ [zn (st_seed s 0); zn (st_seed s 1); zn (st_seed s 2)].
 
-(* row = [code; haspos; base; jit; mesh; seed+1; nosave; chunk option (not part of the model); name set; ext drift id] *)
+(* row = [code; haspos; base; jit; mesh; seed+1; nosave; chunk option (not part of the model); name set; ext drift id;
+          CondSRF object] *)
 Definition dec_op (r : list Z) : Op :=
   let g i := Z.to_nat (nth i r 0%Z) in
   let q := mkPos (g 2) (g 3) (g 9) in
   let ps := if (g 1 =? 0) then None else Some (q, negb (g 4 =? 0)) in
   match g 0 with
-  | 0 => Call ps (if g 5 =? 0 then None else Some (g 5 - 1)) (g 6 =? 0) (g 8) (g 9)
-  | 1 => SetPos q (negb (g 4 =? 0))
+  | 0 => Call ps (if g 5 =? 0 then None else Some (g 5 - 1)) (g 6 =? 0) (4 * g 10 + g 8 mod 4) (g 9)
+  | 1 => SetPos (g 10) q (negb (g 4 =? 0))
   | 2 => SetCond NewVals | 3 => SetCond NewPos | 4 => SetCond Refresh
   | 5 => ModelInplace | 6 => SetModel | 7 => SetMean | 8 => SetTrend | 9 => SetNorm
-  | 10 => SetGen (g 5 - 1)
+  | 10 => SetGen (g 10) (g 5 - 1)
   | 11 => MutatePos q
   | 12 => KrigeCall ps
   | 13 => AssignPos q
@@ -305,8 +317,8 @@ Fixpoint trace_from (fx : Fix) (s : St) (ops : list Op) : list (list Z) :=
   | [] => []
   | op :: r => let '(s', res) := step fx s op in enc_row s' res :: trace_from fx s' r
   end.
-Definition trace (f1 f2 f3 f4 f5 f6 f7 : bool) (sd0 : nat) (rows : list (list Z)) : list (list Z) :=
-  trace_from (mkFix f1 f2 f3 f4 f5 f6 f7) (init sd0) (map dec_op rows).
+Definition trace (f1 f2 f3 f4 f5 f6 f7 f8 : bool) (sd0 : nat) (rows : list (list Z)) : list (list Z) :=
+  trace_from (mkFix f1 f2 f3 f4 f5 f6 f7 f8) (init sd0) (map dec_op rows).
 
 (* ------------------------------------------------------------------ Part 2: the conditioning formula *)
 Section Formula.
